@@ -1,5 +1,5 @@
 SPECIFICATION Spec
-CONSTANTS MinPgs={1,2,3,4,5} TruncPgs={1,2,3,4,5,6,7,9} Intervals={"off","elapsed","notyet"} MaxW=10 MaxIdle=6
+CONSTANTS MinPgs={1,2,3,4,5} TruncPgs={0,1,2,3,4,5,6,7,9} Intervals={"off","elapsed","notyet"} MaxW=10 MaxIdle=6
 INVARIANTS IdleSilenceK
 PROPERTIES AfterSyncBoundK
 CHECK_DEADLOCK FALSE
